@@ -198,10 +198,13 @@ def list_extend(ex, path, l, ca, node):
         return [(path, NoneV())]
     elem, n, et = sv
     new = fresh("l_arr", old.sort())
-    k, j = fresh("k", Int), fresh("j", Int)
+    j = fresh("j", Int)
     path.assume(n >= 0)
-    path.assume(z3.ForAll([k], z3.Implies(z3.And(k >= 0, k < n), z3.Select(new, n0 + k) == elem(k))))
-    path.assume(z3.ForAll([j], z3.Implies(z3.And(j >= 0, j < n0), z3.Select(new, j) == z3.Select(old, j))))
+    # one pointwise definition, triggered by Select(new, j)
+    path.assume(z3.ForAll([j], z3.Implies(
+        z3.And(j >= 0, j < n0 + n),
+        z3.Select(new, j) == z3.If(j < n0, z3.Select(old, j), elem(j - n0))),
+        patterns=[z3.Select(new, j)]))
     path.store("list.arr", l.e, new)
     path.store("list.len", l.e, n0 + n)
     return [(path, NoneV())]
@@ -578,3 +581,60 @@ def b_setattr(ex, path, ca, node):
         if fn is not None:
             return fn(ex, path, v, name, val, node)
     raise Unsupported(f"setattr on {v}")
+
+
+# --------------------------------------------------------------------------- asyncio (assumed contracts)
+from .core import Coro  # noqa: E402
+
+GLOBAL_NAMES["asyncio"] = Py(("module", "asyncio"))
+
+
+class CoroList(V):
+    """A list of coroutine objects built by `[f(x) for x in xs]` where f is a coroutine function:
+    creation has no effect; element k is run when (and only when) it is awaited."""
+
+    def __init__(self, node, env, ordinal):
+        self.node, self.env, self.ordinal = node, env, ordinal
+
+
+def _gather(ex, path, ca, node):
+    """asyncio.gather(*aws) — ASSUMED CONTRACT: starts every awaitable, returns when all have
+    completed, results in argument order.  Modelled as awaiting them one after the other in
+    argument order: the order of effects *inside* one callback group is left unconstrained by the
+    properties (C02), so any interleaving of the group is represented by this one up to EnvCB.
+    On an exception the first one propagates (the others are left running: not modelled)."""
+    USED_MODELS.add("asyncio.gather")
+    star = ca.star
+    if not (isinstance(star, Py) and star.obj[0] == "genexp") or ca.pos or ca.kw:
+        raise Unsupported("asyncio.gather of anything but one starred generator expression")
+    gnode, env = star.obj[1], star.obj[2]
+    ident = next(ex.run.coro_counter)
+    path.coros[ident] = "asyncio.gather"
+
+    def thunk(p):
+        lc = ast.ListComp(ast.Await(gnode.elt), gnode.generators)
+        ast.copy_location(lc, gnode)
+        ast.fix_missing_locations(lc)
+        ex.loop_ids[id(lc)] = ex.loop_ids[id(gnode)]
+        return ex.comprehension(lc, p, "list", env=env)
+
+    return [(path, Coro(thunk, ident))]
+
+
+BUILTINS["asyncio.gather"] = _gather
+GLOBAL_NAMES["asyncio.gather"] = Py(("builtin", "asyncio.gather"))
+
+
+def _as_completed(ex, path, ca, node):
+    """asyncio.as_completed(coros) — ASSUMED CONTRACT: starts all of them and yields them in
+    completion order.  Modelled as yielding them in list order (one representative completion
+    order; guards of one group are independent up to EnvCB)."""
+    USED_MODELS.add("asyncio.as_completed")
+    v = ca.pos[0]
+    if not isinstance(v, CoroList):
+        raise Unsupported("asyncio.as_completed of anything but a list of coroutine calls")
+    return [(path, v)]
+
+
+BUILTINS["asyncio.as_completed"] = _as_completed
+GLOBAL_NAMES["asyncio.as_completed"] = Py(("builtin", "asyncio.as_completed"))
